@@ -2,11 +2,29 @@
    Only statements, each closed by [exact]; Print Assumptions beneath.
 
    The model (Aws/AwsSignModel.v) INTERPRETS the asprintf format strings, argument lists, strftime
-   formats and the HMAC chain regenerated from aws/aws_sign.c on every run (Gen/Repo_aws.v), so these
-   theorems are re-proved against the layouts the source has now.  The spec (Aws/SigV4Spec.v,
-   Aws/AwsDoc.v) is the published SigV4 algorithm applied to the request the header file documents.
-   The theorems hold for ANY hash functions whose outputs are bytes; instantiated below / in
-   Properties_C19_aws_inst.v with the repository's SHA-256 and HMAC-SHA256 models. *)
+   formats and buffer sizes, the time() error value, the SHA256_Buf argument expressions and the
+   HMAC chain regenerated from aws/aws_sign.c on every run (Gen/Repo_aws.v), so these theorems are
+   re-proved against the layouts the source has now.  Written by hand in the model: the order of the
+   steps, the three hexify(x, y, 32) calls, and the meaning of the accepted length expressions
+   (strlen(x) = the string x; a declared 32-byte array = an HMAC output; `body ? bodylen : 0` = the
+   body, or nothing when body is NULL).  The spec (Aws/SigV4Spec.v, Aws/AwsDoc.v) is the published
+   SigV4 algorithm - including "an empty absolute path is canonicalised to '/'" - applied to the
+   request the header file documents.  The theorems hold for ANY hash functions whose outputs are
+   bytes (sha256, hmac are universally quantified; C01 is about the repository's own).
+
+   DOMAIN.  t is the value time() returned.
+   * 0 <= t < 253402300800 (1970-01-01T00:00:00Z .. 9999-12-31T23:59:59Z): the four functions
+     succeed and return the SigV4 values (the first four theorems).
+   * 253402300800 <= t <= gmtime_r_max: "%Y%m%d" needs 10 bytes, strftime returns 0 for date[9] and
+     every function returns -1 / NULL (C19_far_future_rejected).
+   * Not covered by a theorem (the model follows glibc there and the correspondence run samples it):
+     t = -1 is time()'s error value (failure); other negative t down to year 1000 succeed with a
+     well-formed timestamp; for years -999..999 glibc's unpadded %Y yields a SHORTER date
+     ("9991231") and the functions succeed with a timestamp that is not of the form SigV4 requires;
+     years <= -1000 fail like years >= 10000.  Outside [gmtime_r_min, gmtime_r_max] gmtime_r
+     returns NULL, which aws_sign.c passes to strftime unchecked: no statement is made.
+   * path: the documented request line is "<method> <path> HTTP/1.1", so a path begins with '/'
+     (abs_path); for the empty path the C would sign "" where SigV4 signs "/". *)
 From Coq Require Import NArith ZArith List.
 From LCP Require Import Base.CheckedMem Aws.AwsBase Aws.SigV4Spec Aws.AwsDoc Aws.AwsSignModel Aws.AwsSignProofs.
 
@@ -20,7 +38,8 @@ Section AnyHash.
      SigV4 of the documented request at the returned timestamp; scope date = its first 8 chars *)
   Theorem C19_s3_headers :
     forall key_id key_secret region method bucket path body t,
-    unreserved_str bucket = true -> path_str path = true ->
+    (0 <= t < 253402300800)%Z ->
+    unreserved_str bucket = true -> abs_path path = true -> path_str path = true ->
     aws_sign_s3_headers_m sha256 hmac key_id key_secret region method bucket path body t =
     let dt := datetime_str (gmtime t) in
     let ca := doc_s3_headers sha256 hmac key_id key_secret region method bucket path body dt in
@@ -29,6 +48,7 @@ Section AnyHash.
 
   Theorem C19_svc_headers :
     forall key_id key_secret region svc body t,
+    (0 <= t < 253402300800)%Z ->
     unreserved_str svc = true -> unreserved_str region = true ->
     aws_sign_svc_headers_m sha256 hmac key_id key_secret region svc body t =
     let dt := datetime_str (gmtime t) in
@@ -38,6 +58,7 @@ Section AnyHash.
 
   Theorem C19_dynamodb_headers :
     forall key_id key_secret region op body t,
+    (0 <= t < 253402300800)%Z ->
     unreserved_str region = true -> unreserved_str op = true ->
     aws_sign_dynamodb_headers_m sha256 hmac key_id key_secret region op body t =
     let dt := datetime_str (gmtime t) in
@@ -47,15 +68,31 @@ Section AnyHash.
 
   Theorem C19_s3_querystr :
     forall key_id key_secret region method bucket path expiry t,
+    (0 <= t < 253402300800)%Z ->
     unreserved_str key_id = true -> unreserved_str region = true ->
-    unreserved_str bucket = true -> path_str path = true ->
+    unreserved_str bucket = true -> abs_path path = true -> path_str path = true ->
     aws_sign_s3_querystr_m sha256 hmac key_id key_secret region method bucket path expiry t =
     Some (doc_s3_querystr sha256 hmac key_id key_secret region method bucket path expiry
                           (datetime_str (gmtime t))).
   Proof. exact (s3_querystr_doc sha256 hmac sha_bytes hmac_bytes). Qed.
+
+  (* from year 10000 on (as far as gmtime_r gives a result) every function fails, whatever the
+     other arguments: the date no longer fits its 9-byte buffer and strftime returns 0 *)
+  Theorem C19_far_future_rejected :
+    forall t, (253402300800 <= t <= gmtime_r_max)%Z ->
+    (forall key_id key_secret region method bucket path body,
+       aws_sign_s3_headers_m sha256 hmac key_id key_secret region method bucket path body t = None) /\
+    (forall key_id key_secret region svc body,
+       aws_sign_svc_headers_m sha256 hmac key_id key_secret region svc body t = None) /\
+    (forall key_id key_secret region op body,
+       aws_sign_dynamodb_headers_m sha256 hmac key_id key_secret region op body t = None) /\
+    (forall key_id key_secret region method bucket path expiry,
+       aws_sign_s3_querystr_m sha256 hmac key_id key_secret region method bucket path expiry t = None).
+  Proof. exact (far_future_rejected sha256 hmac). Qed.
 End AnyHash.
 
 Print Assumptions C19_s3_headers.
 Print Assumptions C19_svc_headers.
 Print Assumptions C19_dynamodb_headers.
 Print Assumptions C19_s3_querystr.
+Print Assumptions C19_far_future_rejected.
